@@ -658,6 +658,8 @@ def _elif_tests(st):
 
 
 MUTABLE_ATTRS = {"*"}      # set by the index: attribute names stored anywhere outside __init__ ("*": unknown — everything counts as mutable)
+_TRUSTED_INTS = {"CDATA_SIG_LENGTH"}      # third-party names whose int-ness is part of the trusted base (coincurve.ecdsa: a buffer length)
+INT_CONSTANTS = set()       # set by the index: upper-case names bound to int literals wherever the repo assigns them
 PURE_NAMES = set()          # set by the index before normalisation: repo functions that are trivial getters under every definition of the name
 _PURE_BUILTINS = {"len", "isinstance", "min", "max", "abs", "bool"}
 
@@ -846,6 +848,32 @@ def apply(tree, ref):
 _RE_FUNCS = ("sub", "subn", "match", "search", "fullmatch", "findall", "finditer", "split")
 
 
+_SCALAR_FUNCS = {"len", "str", "int", "repr", "hex", "bool", "float", "abs", "round", "sum", "min", "max", "ord", "chr"}
+_SCALAR_METHODS = {"decode", "encode", "hex", "join", "format", "lower", "upper", "strip", "lstrip", "rstrip", "hexdigest", "digest"}
+
+
+def _scalar_expr(e):
+    """an expression that cannot evaluate to a tuple"""
+    if isinstance(e, ast.Constant):
+        return not isinstance(e.value, tuple)
+    if isinstance(e, ast.JoinedStr):
+        return True
+    if isinstance(e, ast.Name):
+        return e.id in INT_CONSTANTS or e.id in _TRUSTED_INTS
+    if isinstance(e, ast.Call):
+        f = e.func
+        return (isinstance(f, ast.Name) and f.id in _SCALAR_FUNCS) or (isinstance(f, ast.Attribute) and f.attr in _SCALAR_METHODS)
+    return False
+
+
+def _int_expr(e):
+    if isinstance(e, ast.Constant):
+        return isinstance(e.value, int) and not isinstance(e.value, bool)
+    if isinstance(e, ast.Name):
+        return e.id in INT_CONSTANTS or e.id in _TRUSTED_INTS
+    return isinstance(e, ast.Call) and isinstance(e.func, ast.Name) and e.func.id in ("len", "int", "ord")
+
+
 class _Idioms(ast.NodeTransformer):
     """rewrite each occurrence of a library idiom into its equivalent sibling form (both directions are tried by the caller through the skeleton oracle):
          P.sub(r, s) <-> re.sub(P, r, s)  (and match / search / fullmatch / findall / split)      '{}…'.format(a, b) / 'a%sb' % x <-> f'…'
@@ -894,7 +922,9 @@ class _Idioms(ast.NodeTransformer):
             import re as _re
             specs = _re.findall(r"%[sd%]|%[^sd%]", node.left.value)
             args = node.right.elts if isinstance(node.right, ast.Tuple) else [node.right]
-            if all(s_ in ("%s", "%d") for s_ in specs) and len(specs) == len(args):
+            # `fmt % x` with a single operand that may be a tuple at run time is NOT `f'{x}'`; `%d` truncates a float and refuses text where `{}` does neither
+            sound = (isinstance(node.right, ast.Tuple) or _scalar_expr(node.right)) and all(sp != "%d" or _int_expr(a_) for sp, a_ in zip(specs, args))
+            if all(s_ in ("%s", "%d") for s_ in specs) and len(specs) == len(args) and sound:
                 parts = _re.split(r"%[sd]", node.left.value)
                 vals = []
                 for i, p_ in enumerate(parts):
@@ -913,7 +943,7 @@ class _Idioms(ast.NodeTransformer):
             if not any(isinstance(v, ast.Constant) and "%" in v.value for v in node.values):
                 fmt = "".join(v.value if isinstance(v, ast.Constant) else spec for v in node.values)
                 args = [v.value for v in node.values if isinstance(v, ast.FormattedValue)]
-                if args:
+                if args and (len(args) > 1 or _scalar_expr(args[0])) and (self.d == 2 or all(_int_expr(a_) for a_ in args)):
                     self.n += 1
                     right = args[0] if len(args) == 1 else ast.Tuple(elts=args, ctx=ast.Load())
                     return ast.copy_location(ast.BinOp(left=ast.Constant(value=fmt), op=ast.Mod(), right=right), node)
